@@ -68,6 +68,8 @@ CHECK_DEADLOCK FALSE
     mc.append({'name': 'deviation KF_LastResultWins (seeded change C02b-m2): TLC must find the forgotten transient failure',
                'module': 'EdgeClients', 'cfg': flow.write_cfg(wd, 'ec_kf2.cfg', EC_CFG % (2, 'FALSE', 'TRUE')),
                'expect_violation': ['C02_AckImpliesAllStored', 'C02_FailureIsReported']})
+    mc.append({'name': 'WsgiEdge decision table: every request shape x configuration: a 2xx status only for a message in custody', 'module': 'WsgiEdge',
+               'cfg': 'WsgiEdge.cfg'})
     return flow.standard(
         'C02', tier, mc, 'c02', 'Trace_Edge', 'Trace_Edge.cfg', [canary_ack, canary_early],
         level='model_checking',
@@ -77,11 +79,14 @@ CHECK_DEADLOCK FALSE
              '(real SMTP session, real WsgiEdge call); ProxyQueue with whole-message results and every per-recipient result '
              'pattern over {ok, transient, permanent} for 1-3 recipients as mapping and as sequence; two or three clients handing '
              'off to the same queue while a queue policy that yields is being applied (with splitting, failing and slow writes), '
-             'writes attributed to the client message they carry; '
+             'writes attributed to the client message they carry; the HTTP edge\'s whole decision table (path, method, content type, '
+             'validator refusal at each step, undecodable envelope headers, every hand-off outcome; 3 072 request shapes) through the '
+             'real WsgiEdge.__call__, compared with spec/WsgiEdge.tla; '
              'non-trivial = more than one envelope, a failing or a slow write, or the proxy queue',
-        trigger=lambda tr: tr['cfg']['nenv'] > 1 or tr['cfg']['fail'] or tr['cfg']['slow'] or tr['cfg']['proxy'],
+        trigger=lambda tr: 'req' in tr or tr['cfg']['nenv'] > 1 or tr['cfg']['fail'] or tr['cfg']['slow'] or tr['cfg']['proxy'],
         assumptions=['a foreign (non-QueueError) storage exception may be answered by any 4xx/5xx reply or by closing the session'],
         trusted=['TLC 1.8', 'CommunityModules Json/IOUtils', 'harness/drivers/c02.py', 'harness/sdrv.py (in-memory socket)'],
+        extras=[{'driver': 'c02w', 'module': 'Trace_WsgiEdge', 'cfg': 'Trace_WsgiEdge.cfg'}],
         wd=wd, extra_cov={'exhaustive': True})
 
 
